@@ -104,3 +104,27 @@ def relabelled(eng, rmap, s, N):
     eng.facts.add(z3.ForAll([lq], z3.Implies(z3.Select(res.dom, lq),
                                              z3.Exists([i3], z3.And(i3 >= 0, i3 < N, z3.Select(ver.val, i3) == lq)))))
     return eng.alloc(DictVal(res, pyclass="dict"))
+
+
+def relabelled_items(eng, rmap, s):
+    """{v: s[i] for i, v in rmap.items()}: KeyError / IndexError when a key of rmap is not an index of the solution"""
+    ver = eng.store_of(rmap)
+    if ver.ksort != T.Int or ver.vsort != T.Label:
+        raise Unsupported("relabelling through a dict that is not int -> label")
+    i = _iq(eng)
+    if eng.branch(z3.Exists([i], z3.And(z3.Select(ver.dom, i), z3.Not(z3.And(i >= 0, i < s.n))))):
+        raise PyExc("KeyError" if s.container == "dict" else "IndexError", "a mapped integer is not an index of the solution")
+    res = FO.base(eng, T.Label, T.Real, "converted")
+    a, b = _iq(eng), _iq(eng)
+    inj = z3.ForAll([a, b], z3.Implies(z3.And(z3.Select(ver.dom, a), z3.Select(ver.dom, b),
+                                              z3.Select(ver.val, a) == z3.Select(ver.val, b)), a == b))
+    i2 = _iq(eng)
+    eng.facts.add(z3.ForAll([i2], z3.Implies(z3.Select(ver.dom, i2), z3.Select(res.dom, z3.Select(ver.val, i2)))))
+    eng.facts.add(z3.Implies(inj, z3.ForAll([i2], z3.Implies(z3.Select(ver.dom, i2),
+                                                             z3.Select(res.val, z3.Select(ver.val, i2)) == z3.Select(s.arr, i2)))))
+    eng.nfresh += 1
+    lq = z3.Const("lq!%d" % eng.nfresh, T.Label)
+    i3 = _iq(eng)
+    eng.facts.add(z3.ForAll([lq], z3.Implies(z3.Select(res.dom, lq),
+                                             z3.Exists([i3], z3.And(z3.Select(ver.dom, i3), z3.Select(ver.val, i3) == lq)))))
+    return eng.alloc(DictVal(res, pyclass="dict"))
